@@ -26,7 +26,7 @@ ASSUMPTIONS = [
 ]
 REQUIRED = {'reads': 3000, 'revisit_reads': 500, 'inspections': 300, 'contexts': 100, 'pushpops': 100, 'reads_raised': 20,
             'sampled_reads': 100, 'sampled_cross_checks': 20,
-            'class_level_generator_sets': 50}
+            'class_level_generator_sets': 50, 'pushpops_through_holder': 50}
 
 _st = {}
 
@@ -172,7 +172,11 @@ def _run(idx, rng, P, rep, param, ng, T, use_frac):
     class_spec = rng.choice(specs) if rng.random() < 0.5 else None
     ns = dict(x=param.Number(default=make_gen(ng, class_spec) if class_spec else 0.0),
               y=param.Dynamic(default=None), z=param.Number(default=1.0, bounds=(None, None)))
+    # (the documented way for an object to take part in its holder's state saving)
+    ns['_state_push'] = lambda self: self.param._state_push()
+    ns['_state_pop'] = lambda self: self.param._state_pop()
     cls = type(f'D{idx}', (param.Parameterized,), ns)
+    Holder = type(f'H{idx}', (param.Parameterized,), dict(unit=param.Parameter(default=None), other=param.ClassSelector(class_=param.Parameterized, default=None)))
     insts = []
     follows_class = set()   # instances without a generator of their own for x: they read through the class-level one
     slot_spec = {}      # (inst index, pname) -> spec
@@ -352,10 +356,15 @@ def _run(idx, rng, P, rep, param, ng, T, use_frac):
                 mine = [s for s in slots if s[0] == i]
                 snap = {s: o.param.inspect_value(s[1]) for s in mine}
                 t0 = T()
-                trace.append(('push', i))
-                o.param._state_push()
+                # pushed directly, or through an object that holds it in an ordinary (non-dynamic) parameter
+                via = o
+                if rng.random() < 0.3:
+                    via = Holder(unit=o) if rng.random() < 0.5 else Holder(other=o)
+                    rep.count('pushpops_through_holder')
+                trace.append(('push', i, 'direct' if via is o else 'through holder'))
+                via.param._state_push()
                 ops(depth + 1, [min(budget[0], rng.randint(1, 6))])
-                o.param._state_pop()
+                via.param._state_pop()
                 trace.append(('pop', i))
                 for s in mine:
                     v = o.param.inspect_value(s[1])
